@@ -23,7 +23,8 @@
   bytes of the argument by value when the argument is not the object itself (an operation
   on variable `v` cannot change the memory of another variable, so the moment of reading
   does not matter); the alias cases `a = a`, `a.append(a)`, `a.prepend(a)` have dedicated
-  functions (`assignSelf`, `appendSelf`, `prependSelf`) that follow the same C++ text with
+  functions (`assignSelf`, `appendSelf`, `prependSelf`, and `prependSub` for
+  `a.prepend((const byte*)a + off, len)`) that follow the same C++ text with
   the source pointer pointing into the object's own memory.
 
   Not modelled: `delete[]` bookkeeping (the block simply disappears with the value; a
@@ -211,6 +212,46 @@ def Buf.prependSelf (b : Buf) : Option Buf :=
       let m ← wrList m required [some 0]
       pure { store := .own m, s := 0, e := required, cap := required }
 
+/-- `a.prepend((const byte*)a + off, len)` with `off + len ≤ a.size()`: the data is a sub-range of the
+    object's own window (this is the case the test `data + size <= buffer || data > buffer + _capacity`
+    of the second branch exists for) -/
+def Buf.prependSub (b : Buf) (off len : Nat) : Option Buf :=
+  let size := len
+  let src := b.s + off                         -- `data` as an offset into the block
+  if b.owning = true ∧ size ≤ b.s then do
+    let d ← b.store.load src size
+    if noOverlap (b.s - size) src size then do
+      let st ← b.store.write (b.s - size) d
+      pure { b with store := st, s := b.s - size }
+    else none
+  else
+    let oldSize := b.e - b.s
+    let required := size + oldSize
+    if b.owning = true ∧ required ≤ b.cap ∧ (src + size ≤ 0 ∨ src > b.cap) then do
+      let old ← b.store.load b.s oldSize
+      let st ← b.store.write size old
+      let d ← st.load src size                   -- the data is read after the shift
+      if noOverlap 0 src size then do
+        let st ← st.write 0 d
+        let st ← st.write required [some 0]
+        pure { b with store := st, s := 0, e := required }
+      else none
+    else do
+      let d ← b.store.load src size
+      let m ← wrList (fresh (required + 1)) 0 d
+      let old ← b.store.load b.s oldSize
+      let m ← wrList m size old
+      let m ← wrList m required [some 0]
+      pure { store := .own m, s := 0, e := required, cap := required }
+
+/-- the op line `prependsub v off len` clamps the sub-range to the window (so that it is always a
+    valid argument): `off' = min off size`, `len' = min len (size - off')` -/
+def Buf.prependSubClamped (b : Buf) (off len : Nat) : Option Buf :=
+  let size := b.e - b.s
+  let off' := if off < size then off else size
+  let len' := if len < size - off' then len else size - off'
+  b.prependSub off' len'
+
 /-- `resize(usize size)` -/
 def Buf.resize (b : Buf) (size : Nat) : Option Buf :=
   if size > b.cap then do
@@ -355,6 +396,7 @@ inductive Op where
   | assignData (v : Nat) (d : List Nat)
   | prependData (v : Nat) (d : List Nat)
   | prependBuf (v w : Nat)
+  | prependSub (v off len : Nat)
   | appendData (v : Nat) (d : List Nat)
   | appendBuf (v w : Nat)
   | resize (v n : Nat)
@@ -389,6 +431,7 @@ def step (st : State) : Op → Option State
   | .assignData v d => st.upd v (fun b => b.assign (bytesOf d))
   | .prependData v d => st.upd v (fun b => b.prepend (bytesOf d))
   | .prependBuf v w => if v = w then st.upd v Buf.prependSelf else st.updFrom v w Buf.prepend
+  | .prependSub v off len => st.upd v (fun b => b.prependSubClamped off len)
   | .appendData v d => st.upd v (fun b => b.append (bytesOf d))
   | .appendBuf v w => if v = w then st.upd v Buf.appendSelf else st.updFrom v w Buf.append
   | .resize v n => st.upd v (fun b => b.resize n)
